@@ -544,10 +544,11 @@ def next_end_tokens(state: TokenizerState) -> Iterator[TokenInfo]:
     yield TokenInfo(Token.ENDMARKER, "", (state.lnum, 0), (state.lnum, 0), "")
 
 
-def handle_fstring_progs(state: TokenizerState, endprog: EndProg) -> Iterator[TokenInfo]:
+def handle_fstring_progs(state: TokenizerState, endprog: EndProg) -> Generator[TokenInfo, None, bool]:
+    """Scan up to the next delimiter of the f-string's text part; tells whether there was one on the line."""
     endmatch = state.match(endprog.pattern)
     if (not endmatch) or (not endmatch.lastgroup):
-        return None
+        return False
     start, end = endmatch.span(endmatch.lastgroup)
     if endmatch.lastgroup == "End":  # quote match
         middle_end = end - len(endprog.quote)
@@ -588,6 +589,7 @@ def handle_fstring_progs(state: TokenizerState, endprog: EndProg) -> Iterator[To
             state.pop_mode((state.lnum, end))  # in braces
 
     state.pos = end
+    return True
 
 
 def handle_end_progs(state: TokenizerState) -> Iterator[TokenInfo]:
@@ -600,9 +602,10 @@ def handle_end_progs(state: TokenizerState) -> Iterator[TokenInfo]:
         return
 
     if state.in_fstring() or state.in_colon():
-        yield from handle_fstring_progs(state, state.end_progs[-1])
-        # else:
-        #     raise TokenError(f"Expected {endprog.quote} inside f-string", (state.lnum, state.pos))
+        if (yield from handle_fstring_progs(state, state.end_progs[-1])):
+            # what follows the delimiter is scanned by the next call: the rest of the line is not
+            # to be joined onto the text part that starts there
+            return
 
     elif endmatch := state.match(state.end_progs[-1].pattern):  # all on one line
         end = endmatch.end(0)
@@ -614,13 +617,14 @@ def handle_end_progs(state: TokenizerState) -> Iterator[TokenInfo]:
         return
 
     if (
-        (state.pos == 0)  # called at start of the line
+        (state.pos == 0 and state.in_colon())  # a format spec that goes on at the start of a line
         or ((state.in_multi_line_string()) or (state.in_continued_string()))
     ):
         state.end_progs[-1].join_line(state)
         state.pos = state.max
-    elif state.end_progs[-1].mode is None:
-        # a one-quote string that neither ends on its line nor continues with a backslash
+    elif state.end_progs[-1].mode is None or state.in_fstring():
+        # a one-quote string (or text part of a one-quote f-string) that neither ends on its line
+        # nor continues with a backslash
         raise TokenError("unterminated string literal", state.end_progs[-1].start)
 
 
